@@ -1392,9 +1392,13 @@ def apply_monkey_patches() -> Iterator[None]:
                 st = _PATCH_STATE.get(key)
                 if st is None:
                     orig = getattr(tgt, attr)
+                    # An attribute the target merely inherits (e.g. a subclass
+                    # reusing its parent's __call__) must be removed again on
+                    # exit, not re-installed as the target's own attribute.
+                    owned = attr in vars(tgt)
                     new = patch_fn(orig)
                     setattr(tgt, attr, new)
-                    _PATCH_STATE[key] = {"orig": orig, "count": 1}
+                    _PATCH_STATE[key] = {"orig": orig, "count": 1, "owned": owned}
                 else:
                     st["count"] += 1
                 touched.append(key)
@@ -1408,7 +1412,10 @@ def apply_monkey_patches() -> Iterator[None]:
             if st["count"] == 0:
                 tgt, attr = key
                 try:
-                    setattr(tgt, attr, st["orig"])
+                    if st["owned"]:
+                        setattr(tgt, attr, st["orig"])
+                    else:
+                        delattr(tgt, attr)
                 finally:
                     _PATCH_STATE.pop(key, None)
 
